@@ -147,6 +147,33 @@ def cases(ctx):
             continue
         seen.add(key)
         out.append(single_case(s, t, r, L))
+    # re-rooted rules keep their cast and doc (and are judged like T's own rules on the node at R)
+    for root, rdoc in (("a", "doc['a']"), ("l0", "doc['l'][0]")):
+        body = f"""
+doc = {{'a': {{'flag': 'true', 'n': '3', 'p': u1}}, 'l': [{{'flag': 'False', 'n': 'x', 'p': u2}}], 'flag': 'x'}}
+before = tx(doc)
+the_doc = {{'description': ['a flag'], 'examples': []}}
+t1 = Rule(('flag',), Value.equal_to(True), cast={{str: valida.casting.cast_string_to_bool}}, doc=the_doc)
+t2 = Rule(('n',), Value.greater_than(t), cast={{str: int}})
+t3 = Rule(('p',), Value.is_instance(int, bool), doc='plain')
+T = Schema([t1, t2, t3])
+S = Schema([Rule(('flag',), Value.is_instance(str))])
+R = DataPath({"'a'" if root == 'a' else "'l', 0"})
+S.add_schema(T, R)
+added = [r for r in S.rules if len(r.path) > 1]
+ok = note('three rules added', len(added) == 3)
+ok = ok and note('casts kept', [r.cast for r in added] == [t1.cast, t2.cast, t3.cast])
+ok = ok and note('docs kept', [r.doc for r in added] == [t1.doc, t2.doc, t3.doc])
+sv = S.validate(doc)
+tv = T.validate({rdoc})
+ok = ok and same('validity = own rule and T at R', sv.is_valid, tv.is_valid)
+ok = ok and same('failures = T at R', sv.num_failures, tv.num_failures)
+ok = ok and same('cast data at R', tx(follow(sv.cast_data, {"('a',)" if root == 'a' else "('l', 0)"})), tx(tv.cast_data))
+ok = ok and note('document unchanged', tx(doc) == before)
+return ok
+"""
+        out.append(mk_case(f"c18.add.cast_and_doc.{root}", [("t", "int"), ("u1", "Union[int, bool, None]"), ("u2", "int")], body,
+                           pre=[f"BU({L}, t, u1, u2)"], stubs=["sym_repr"]))
     for t, r1, r2 in [(["tp"], "a", "b"), (["tp", "tq"], "a", "ar"), (["troot"], "a", "empty"), (["tp"], "lfan", "a")]:
         out.append(seq_case(t, r1, r2, "same_s", L))
         out.append(seq_case(t, r1, r2, "two_s", L))
